@@ -329,6 +329,9 @@ class Run:
         self.overapprox = False   # set when a model over-approximated (nondeterministic outcome of a library call)
         self.asserts = []     # in-path proof obligations: (pc snapshot, formula, label)
         self.global_overlay = {}   # (id(module dict), name) -> SV : writes to module globals stay inside the path
+        self.shared = {}           # id(real mutable module-level object) -> its one symbolic image in this path
+        self.shared_names = {}     # id(symbolic image) -> global name
+        self.heap_writes = []      # (target SV, what) for every dict/list mutation
 
     def check(self, formula, label):
         """Record an obligation that must hold at this program point (loop/fold invariants)."""
@@ -1078,7 +1081,15 @@ class Run:
         if g is not None and (id(g), name) in self.global_overlay:
             return self.global_overlay[(id(g), name)]
         if g is not None and name in g:
-            return lift(g[name])
+            obj = g[name]
+            if type(obj) in (dict, list) and obj:
+                # a mutable module-level object: one shared symbolic image per path, so that writes to it are visible
+                key = id(obj)
+                if key not in self.shared:
+                    self.shared[key] = lift(obj)
+                    self.shared_names[id(self.shared[key])] = name
+                return self.shared[key]
+            return lift(obj)
         if hasattr(builtins, name):
             return VNative(getattr(builtins, name))
         self.throw(NameError, f"name '{name}' is not defined")
@@ -1553,6 +1564,7 @@ class Run:
         return None
 
     def dict_set(self, d, k, v):
+        self.heap_writes.append((d, "setitem"))
         for p in d.pairs:
             if p[0] is k or self.key_eq(p[0], k):
                 p[1] = v
